@@ -295,21 +295,28 @@ def run(ck, m):
               stmt="iterm2 LINES buffer order: seek(0) save truncate tell getvalue")
 
     # ---- R5 ----------------------------------------------------------------------------
-    gate = next((s for s in ir.body if isinstance(s, ast.If) and "self.read_from_file" in norm(s.test)), None)
+    # the gate = the traced situation in which the source file itself is opened for transmission (an `open(...)` that runs under
+    # `self.read_from_file`): its conjuncts, however the test is spelled (one `and` chain, nested ifs, a helper with early returns)
+    from tiv.sem import tconds
+    opens = [c for c in body_walk(ir) if isinstance(c, ast.Call) and call_name(c) == "open"]
+    gl = [(c, tconds(ir, c, keep=("file_is_readable", "render_method"))) for c in opens]
+    gl = [(c, L) for c, L in gl if "self.read_from_file" in L]
+    ck.need(len(gl) == 1, "iterm2 renderer: read-from-file gate not found")
+    op, conj = gl[0][0], sorted(gl[0][1])
+    gate = next((a_ for a_ in _anc(op) if isinstance(a_, ast.If)), None)
     ck.need(gate is not None, "iterm2 renderer: read-from-file gate not found")
-    conj = [norm(v) for v in flatten_boolop(gate.test, ast.And)]
-    kinds = {
-        "policy": any(c == "self.read_from_file" for c in conj),
-        "not animated": any(c == "not self._is_animated" for c in conj),
-        "readable": any(c == "file_is_readable" for c in conj),
-        "WHOLE": any(c == "render_method == WHOLE" for c in conj),
-        "original <= render size": any(c == "mul(*self._original_size) <= mul(*self._get_render_size())" for c in conj),
-        "mode/alpha": any("img.mode in" in c and "isinstance(alpha, float)" in c for c in conj),
+    kind_of = {
+        "policy": lambda c: c == "self.read_from_file",
+        "not animated": lambda c: c == "not self._is_animated",
+        "readable": lambda c: c == "file_is_readable",
+        "WHOLE": lambda c: c == "render_method == WHOLE",
+        "original <= render size": lambda c: c == "mul(*self._original_size) <= mul(*self._get_render_size())",
+        "mode/alpha": lambda c: ".mode in {'1', 'L', 'RGB', 'HSV', 'CMYK'} or (isinstance(alpha, float) and" in c and c.endswith(".mode not in {'P', 'PA'})"),
     }
-    for k, v in kinds.items():
-        ck.ob("R5", gate, v, f"the untouched source file may be transmitted only under the documented conjunction; the `{k}` condition is missing from {conj}", stmt=f"read-from-file gate: {k}")
-    ck.ob("R5", gate, len(conj) == 6, f"the gate has {len(conj)} conjuncts, 6 documented", stmt="read-from-file gate: exactly the documented conjuncts")
-    op = next((c for s in gate.body for c in walk_local(s) if isinstance(c, ast.Call) and call_name(c) == "open"), None)
+    for k, pred in kind_of.items():
+        ck.ob("R5", gate, any(pred(c) for c in conj), f"the untouched source file may be transmitted only under the documented conjunction; the `{k}` condition is missing from {conj}", stmt=f"read-from-file gate: {k}")
+    other = [c for c in conj if not any(pred(c) for pred in kind_of.values()) and "ANIM" not in c]
+    ck.ob("R5", gate, not other, f"the gate has conjuncts beyond the 6 documented ones: {other}", stmt="read-from-file gate: exactly the documented conjuncts")
     ck.ob("R5", gate, op is not None and len(op.args) == 2 and norm(op.args[1]) == "'rb'", "the source file must be opened 'rb'", stmt="read-from-file: open(..., 'rb')")
     rel_ = [b_ for s_, b_ in find_stmts("if $$v is not img:\n    self._close_image(img)", body_walk(ir))]
     ck.expect(len(rel_) == 1, "iterm2 renderer: `if <frame image> is not img: self._close_image(img)` not recognised")
